@@ -19,6 +19,14 @@ package posix
 //@   at-return {C13} [content-range-iff-valid] when err == nil :: ensures (*ret0.ContentRange != "") <==> isValid
 //@   at-return {C13} [whole-file-only-for-whole-object] when err == nil && typeIs(ret0.Body, *os.File) :: ensures startOffset == 0 && length == objSize
 
+// ---- C04: the copy source that is opened is the one that was parsed (and found free of dot segments) ----
+// Either the bucket and key ParseCopySource returned, or, for an older version, the version path built from them.
+//@ func (*Posix) CopyObject
+//@   at-call os.Open {C04} [the-source-opened-is-the-source-that-was-parsed] requires called("backend.ParseCopySource") && $0 == objPath \
+//@        && (srcObject == result("backend.ParseCopySource", 1) \
+//@            || (called("posix.genObjVersionKey") && arg("posix.genObjVersionKey", 0) == result("backend.ParseCopySource", 1) && srcVersionId == result("backend.ParseCopySource", 2))) \
+//@        && (srcBucket == result("backend.ParseCopySource", 0) || called("posix.genObjVersionKey"))
+
 // ---- C10: retention overwrite rules ---------------------------------------------------
 // The retention attribute of an object version is (re)written only when none exists yet, or the
 // existing one is not COMPLIANCE and, if GOVERNANCE, the caller's bypass was granted. (The gateway
